@@ -28,6 +28,11 @@ CLAIMED = {
    text="Generated-input search per quick run: 4000 batches of 8 data (all number kinds incl. -0.0 / subnormal / inf / nan / bignums / ratios, 28 characters incl. controls and astral, strings over them, plain symbols, proper and improper lists, vectors, byte vectors, quotation forms, depth <=3) built from constructors, written with write and read back with read: the datum read back must have the model's canonical form and the written text must parse as exactly one form; 12000 texts (token soup over 80 lexical fragments, well formed data with 1-4 character-level mutations, arbitrary unicode): no panic / abort in Parser::parse, Parser::parse_without_lowering and read, error spans inside the text; 4000 programs / quoted data: print(parse(t)) is a fixpoint of print . parse. Bounded by the alphabets and sizes; no proof.",
    note="Trusted: the worker's `parse` / `parse-raw` specials (thin wrappers over Parser::parse / parse_without_lowering), the canonical value walker. Clause (c) uses the un-lowered reader output (lowering introduces generated names that are not meant to be readable). Symbols needing |...| and unquote forms are listed known findings, excluded by construction.",
    design="DESIGN.md section 4, C12"),
+ "C13": dict(
+   technique="property-based testing with (a) a metamorphic / differential oracle for hygiene (a program with clashing names and its alpha-renamed variant must give the same values, as top-level text and as a module) and (b) a reference matcher for syntax-rules pattern matching over generated patterns and uses",
+   text="Generated-input search per quick run: 1500 hygiene scenarios from 11 families (template binders vs user variables in swap! / or / lambda / named-let templates, use-site bindings via let, lambda parameter or internal define of the template's free identifiers - program globals and builtins, directly or inside a form handed to when / or / let* / a user macro -, special forms, a macro using a macro with the same spelling, a macro-defining macro, recursive and let*-style macros, a macro imported from a module whose private helper is redefined by the requiring program) x 6 binder names, each run with clashing and with alpha-renamed names, as REPL text and as a module, JIT on/off; 6000 generated syntax-rules definitions (1-3 clauses, literals, nested ellipses, items after an ellipsis, dotted tails) with 2-5 generated uses each, compared with a reference matcher; a use no clause matches must raise. No proof: scenario families and pattern grammar are finite.",
+   note="Trusted: alpha-renaming of use-site variables to names that occur nowhere else preserves meaning (the hygiene oracle needs no model of the expander); the reference matcher (svmodel::macros) for clause selection and bindings. Four hygiene defects are listed as known findings and matched by signature.",
+   design="DESIGN.md section 4, C13"),
  "C02": dict(
    technique="differential property-based testing: generated programs and evaluation histories run under 7 (quick) / 24 (thorough) combinations of the optimisation switches (JIT, inlining, recursive inlining, closure lifting, module inlining), all compared with each other and with the reference interpreter",
    text="Generated-input search: each generated program / history (same generators as C01 and C06) is executed in forked workers under every selected combination of STEEL_JIT, STEEL_INLINE, STEEL_INLINE_RECURSIVE, STEEL_CLOSURE_LIFTING and STEEL_MODULE_INLINE, as top-level text and as a module; values, output and outcome must be identical across configurations (and equal to the reference interpreter). A failure is classed jitdiv (only the JIT differs) or cfgdiv. Bounded by the generators; no proof.",
